@@ -26,7 +26,10 @@ KNOWN_IDS = set()     # ids listed under "findings" in /verif/known_findings.jso
 
 class Harness(object):
     def __init__(self, name, funcs, props, body, variants=None, level="proof", bound="", replay=None,
-                 note="", setup=None, split_variants=False, weight=1, timeout_ms=None):
+                 note="", setup=None, split_variants=False, weight=1, timeout_ms=None, thorough_variants=None,
+                 thorough_bound=""):
+        self.thorough_variants = thorough_variants      # extra (deeper) variants explored only in the thorough tier
+        self.thorough_bound = thorough_bound
         self.split_variants = split_variants
         self.weight = weight
         self.timeout_ms = timeout_ms
@@ -41,12 +44,17 @@ class Harness(object):
         self.note = note
         self.setup = setup
 
+    def variants_for(self, tier):
+        if tier == "thorough" and self.thorough_variants:
+            return list(self.variants) + list(self.thorough_variants)
+        return self.variants
+
 
 def harness(name, funcs, props, variants=None, level="proof", bound="", replay=None, note="", setup=None,
-            split_variants=False, weight=1, timeout_ms=None):
+            split_variants=False, weight=1, timeout_ms=None, thorough_variants=None, thorough_bound=""):
     def deco(body):
         HARNESSES[name] = Harness(name, funcs, props, body, variants, level, bound, replay, note, setup,
-                                  split_variants, weight, timeout_ms)
+                                  split_variants, weight, timeout_ms, thorough_variants, thorough_bound)
         return body
     return deco
 
@@ -224,7 +232,9 @@ def run_harness(name, repo, tier="quick", seed=0, jobs=None, variant_index=None)
     import multiprocessing as mp
     h = HARNESSES[name]
     t0 = time.time()
-    rec = {"harness": name, "functions": [], "props": h.props, "level": h.level, "bound": h.bound,
+    rec = {"harness": name, "functions": [], "props": h.props, "level": h.level,
+           "bound": (h.bound + (" | thorough tier: " + h.thorough_bound if tier == "thorough" and h.thorough_variants
+                                else "")),
            "variants": [], "obligations": [], "undecided": [], "refuted": [], "known": [], "paths": 0,
            "note": h.note, "duplicates_merged": 0}
     timeout_ms = 10000 if tier == "quick" else 120000
@@ -249,7 +259,8 @@ def run_harness(name, repo, tier="quick", seed=0, jobs=None, variant_index=None)
             h.setup(interp)
         del _PENDING[:]
         seen = set()
-        variants = h.variants if variant_index is None else [h.variants[variant_index]]
+        allv = h.variants_for(tier)
+        variants = allv if variant_index is None else [allv[variant_index]]
         for (vname, vparam) in variants:
             def run(st, vparam=vparam, vname=vname):
                 v = VC(interp, st, name + ("[%s]" % vname if vname else ""), vparam)
